@@ -71,8 +71,13 @@ def _pool():
     return {
         "plain": lambda sh: rtf.RTFDocument(df=DF2()),
         "red": lambda sh: rtf.RTFDocument(df=DF2(), rtf_body=rtf.RTFBody(text_color="red"), rtf_title=rtf.RTFTitle(text="T0")),
-        "paged": lambda sh: rtf.RTFDocument(df=DF2(), rtf_page=rtf.RTFPage(nrow=3), rtf_body=rtf.RTFBody(text_color=[["blue", "green"]]),
-                                            rtf_footnote=rtf.RTFFootnote(text="F0")),
+        # paginated, own margins (page-break blocks restate them), blue/green cells
+        "paged": lambda sh: rtf.RTFDocument(df=DF2(), rtf_page=rtf.RTFPage(nrow=3, margin=[0.5, 0.6, 0.7, 0.8, 0.4, 0.3]),
+                                            rtf_body=rtf.RTFBody(text_color=[["blue", "green"]]), rtf_footnote=rtf.RTFFootnote(text="F0")),
+        # table footnote and source on every page, one closing style empty: a per-page border override must not persist
+        "fnall": lambda sh: rtf.RTFDocument(df=DF2(), rtf_page=rtf.RTFPage(nrow=4, page_footnote="all", page_source="all"),
+                                            rtf_body=rtf.RTFBody(border_last=""),
+                                            rtf_footnote=rtf.RTFFootnote(text="F0"), rtf_source=rtf.RTFSource(text="Z0", as_table=True)),
         "grouped": lambda sh: rtf.RTFDocument(df=DFG(), rtf_body=rtf.RTFBody(group_by="k", text_background_color="yellow")),
         "bad": lambda sh: rtf.RTFDocument(df=DFG(bad=True), rtf_body=rtf.RTFBody(group_by="k", text_color="blue")),
         "multi": lambda sh: rtf.RTFDocument(df=[DF2(), DF3()], rtf_body=[rtf.RTFBody(text_color="red"), rtf.RTFBody(text_color="green")],
@@ -89,7 +94,7 @@ def _pool():
     }
 
 
-POOL_NAMES = ["plain", "red", "paged", "grouped", "bad", "multi", "figure", "shA", "shB", "shC"]
+POOL_NAMES = ["plain", "red", "paged", "fnall", "grouped", "bad", "multi", "figure", "shA", "shB", "shC"]
 SHARES = {"shA": ("body", "header", "page", "sub", "fn", "df"), "shB": ("body", "header", "page", "sub", "fn", "df"),
           "shC": ("body", "header", "page")}
 NCOLS = {"shA": 2, "shB": 2, "shC": 1}
